@@ -17,6 +17,10 @@ import (
 	context "verif/engine/vsched/vcontext"
 )
 
+// settleTime lets every bounded background activity of a live session finish (replacement dials: 3 attempts 1s apart,
+// fill back-off <= 130ms, connect timeout 100-300ms) before the at-rest oracles look at the pools.
+const settleTime = 5 * time.Second
+
 type c17cfg struct {
 	name              string
 	control           bool // with a control connection (system tables served by the scripted nodes)
@@ -30,6 +34,7 @@ type c17cfg struct {
 	closeAfterQueries bool // closers start only after the callers returned (e.g. while a dropped connection is being replaced)
 	removeHost        bool // a thread removes a host (as a refresh would) while others query
 	dialFault         bool
+	lateClose         bool // the closers first let 1ms of virtual time pass (Close lands wherever timer deviations put it)
 	upTwice           bool // a host without a pool (reported down) is brought back by two concurrent triggers (UP event and reconnect tick)
 	refill3           bool // two of three connections are lost; the replacing handshakes may be dropped or slow (free choices) while queries keep arriving
 	closeErr          bool
@@ -132,7 +137,7 @@ func (c *c17cfg) body() {
 	}
 	sess = s
 	if !c.earlyClose {
-		vs.WaitQuiescent()
+		vs.WaitIdle() // (not WaitQuiescent: a live session has periodic timers, which would run the clock to the horizon)
 	}
 	dialing = true
 	vs.Quiet(false)
@@ -170,7 +175,7 @@ func (c *c17cfg) body() {
 	if c.upTwice {
 		vs.Quiet(true)
 		gocql.VerifMarkHostDown(sess, ips[len(ips)-1])
-		vs.WaitQuiescent()
+		vs.WaitIdle()
 		vs.Quiet(false)
 		for i := 0; i < 2; i++ {
 			i := i
@@ -234,6 +239,9 @@ func (c *c17cfg) body() {
 	for i := 0; i < c.closers; i++ {
 		i := i
 		vs.GoNamed(fmt.Sprintf("closer%d", i), func() {
+			if c.lateClose {
+				vs.Sleep(time.Millisecond)
+			}
 			sess.Close()
 			vs.Send(done, res{fmt.Sprintf("close%d", i), nil})
 		})
@@ -242,7 +250,7 @@ func (c *c17cfg) body() {
 		r := vs.Recv[res](done)
 		sig = append(sig, r.who+":"+gocql.VerifErrClass(r.err))
 	}
-	vs.WaitQuiescent()
+	vs.Settle(settleTime)
 	// "a connection reported closed is removed from its pool and replaced": replacement is triggered by the
 	// connection's error callback or, if a fill was already running then, by the next Pick. Give every host
 	// one more (answered) query as that trigger, then let the fills finish.
@@ -253,7 +261,7 @@ func (c *c17cfg) body() {
 		for i := 0; i < 2*c.hosts; i++ {
 			sess.Query("QUERYX 'settle'").WithContext(context.Background()).Exec()
 		}
-		vs.WaitQuiescent()
+		vs.Settle(settleTime)
 	}
 	// pool invariants at quiescence
 	for _, p := range gocql.VerifPools(sess) {
@@ -264,7 +272,7 @@ func (c *c17cfg) body() {
 			vs.Failf("c17:closed-conn-left-in-pool", "pool of %s still holds %d closed connection(s) at quiescence", p.Addr, p.ClosedConn)
 		}
 		// (a timer fired ahead of runnable threads during the settling phase can time a replacement dial out: not counted)
-		if _, dAfter, _ := vs.Deviations(); c.closers == 0 && !c.removeHost && !p.PoolClosed && p.Conns != p.Size && dAfter == dBefore {
+		if _, dAfter, _ := vs.Deviations(); c.closers == 0 && !c.removeHost && !p.PoolClosed && p.HostUp && p.Conns != p.Size && dAfter == dBefore {
 			vs.Failf("c17:pool-not-refilled", "pool of %s has %d of %d connections at quiescence, after a further query on every host and with every later dial succeeding", p.Addr, p.Conns, p.Size)
 		}
 	}
@@ -309,14 +317,14 @@ func (c *c17cfg) body() {
 		if j := strings.Index(key, "["); j >= 0 {
 			key = key[:j]
 		}
-		vs.Failf("c17:goroutine-alive-after-close:"+key, "driver goroutines still alive after Session.Close and quiescence (horizon %v): %v", 20*time.Second, leaked)
+		vs.Failf("c17:goroutine-alive-after-close:"+key, "driver goroutines still alive after Session.Close and quiescence (horizon %v): %v", 60*time.Second, leaked)
 	}
 	sort.Strings(sig)
 	vs.Observe("%s maxpool=%d", strings.Join(sig, " "), maxPool)
 }
 
 func (c *c17cfg) build() *vs.Scenario {
-	return &vs.Scenario{Name: c.name, Cfg: vs.Config{MaxSteps: 100000, Horizon: 20 * time.Second, DelayBounded: true}, Body: c.body}
+	return &vs.Scenario{Name: c.name, Cfg: vs.Config{MaxSteps: 100000, Horizon: 60 * time.Second, DelayBounded: true}, Body: c.body}
 }
 
 func main() {
@@ -327,7 +335,7 @@ func main() {
 		{name: "pool1-drop-refill", hosts: 1, numConns: 1, callers: 2, fates: []string{"drop", "reply"}, t: [2]int{2, 3}},
 		{name: "pool2-drop-refill", hosts: 2, numConns: 2, callers: 2, fates: []string{"drop", "reply"}, t: [2]int{1, 2}},
 		{name: "pool3-dialfault", hosts: 1, numConns: 3, callers: 2, dialFault: true, fates: rd, t: [2]int{2, 3}},
-		{name: "host-up-twice-concurrently", hosts: 1, numConns: 2, upTwice: true, fates: ok, t: [2]int{2, 3}},
+		{name: "host-up-twice-concurrently", hosts: 1, numConns: 2, upTwice: true, fates: ok, t: [2]int{1, 2}},
 		{name: "pool3-two-lost-handshake-fates", hosts: 1, numConns: 3, refill3: true, fates: ok, t: [2]int{1, 2}},
 		{name: "pool2-closeerr-close", hosts: 1, numConns: 2, callers: 1, closers: 1, closeErr: true, fates: rd, t: [2]int{2, 3}},
 		{name: "close-during-refill-closeerr", hosts: 1, numConns: 2, callers: 1, closers: 1, closeErr: true, closeAfterQueries: true, fates: []string{"drop", "reply"}, t: [2]int{2, 3}},
@@ -339,6 +347,7 @@ func main() {
 		{name: "control-close", control: true, hosts: 2, numConns: 1, callers: 1, closers: 1, fates: ok, t: [2]int{1, 3}},
 		{name: "control-early-close", control: true, hosts: 1, numConns: 1, closers: 1, earlyClose: true, fates: ok, t: [2]int{2, 3}},
 		{name: "control-close-vs-refresh", control: true, hosts: 2, numConns: 1, closers: 1, refresh: true, fates: ok, t: [2]int{2, 3}},
+		{name: "control-late-close-vs-reconnect", control: true, hosts: 1, numConns: 1, closers: 1, dropCtl: true, lateClose: true, fates: ok, t: [2]int{2, 3}},
 		{name: "control-close-vs-reconnect", control: true, hosts: 2, numConns: 1, closers: 1, dropCtl: true, fates: ok, t: [2]int{1, 3}},
 	}
 	var defs []mcreport.Def
@@ -349,7 +358,7 @@ func main() {
 	}
 	mcreport.Main("C17", "model_checking",
 		"delay-bounded exhaustive exploration (total deviations <= T) of ten pool / close scenarios on a real Session over scripted nodes: concurrent Pick-triggered fills, connections dropped by the node, dial failures, a transport whose Close fails, host removal racing queries, Session.Close racing queries, a second Close, a ring refresh, a control-connection reconnect, and Close immediately after NewSession",
-		[]string{"1-2 hosts, pool size 1-3, 1-2 callers, 1-2 closers; horizon 20s of virtual time (heartbeats and debounce timers run); ReconnectInterval 0",
+		[]string{"1-2 hosts, pool size 1-3, 1-2 callers, 1-2 closers; horizon 60s of virtual time (heartbeats and debounce timers run); ReconnectInterval 0",
 			"data races proper are looked for by the separate free-running -race pass; here shared-state errors show up through the oracles (pool bound, closed connections in pools, open transports, live goroutines, Close not returning = deadlock report)"},
 		defs, 80*time.Second, 25*time.Minute, nil)
 }
